@@ -72,7 +72,7 @@ def run(spec):
         target, k = crash
 
         def hook(actor, msg, idx):
-            if actor == target and idx >= k and not state.get("crashed") and not msg.startswith(("is_", "get:")):
+            if actor == target and idx >= k and not state.get("crashed") and not msg.startswith(("is_", "get:", "set:", "get_", "<")):
                 state["crashed"] = True
                 state["t_death"] = w.now_us
                 state["crash_msg"] = msg
@@ -80,6 +80,23 @@ def run(spec):
             return None
 
         w.fault_hook = hook
+    crash_on = spec.get("crash_on")
+    if crash_on:
+        # fault in the n-th message of `target` whose name starts with `prefix` (e.g. the first poll after a phase entry)
+        target2, prefix, nth = crash_on
+        seen = {"n": 0}
+
+        def hook2(actor, msg, idx):
+            if actor == target2 and msg.startswith(prefix) and not state.get("crashed"):
+                seen["n"] += 1
+                if seen["n"] >= nth:
+                    state["crashed"] = True
+                    state["t_death"] = w.now_us
+                    state["crash_msg"] = msg
+                    return RuntimeError("injected fault")
+            return None
+
+        w.fault_hook = hook2
 
     def mqtt_actor():
         for a in w.actors:
@@ -126,6 +143,25 @@ def run(spec):
             h = state["handlers"].get(signal.SIGTERM)
             if h:
                 h(signal.SIGTERM, None)
+            n2 = spec.get("sigterm2_after_handlers")
+            if n2 is not None:
+                # a second signal while the shutdown is in progress: after n2 more handler executions of any actor
+                cnt = {"n": 0}
+
+                def on_step(actor, hname, when):
+                    if when != "post" or state.get("second_done"):
+                        return
+                    cnt["n"] += 1
+                    if cnt["n"] >= n2:
+                        state["second_done"] = True
+                        h2 = state["handlers"].get(signal.SIGTERM)
+                        if callable(h2):
+                            h2(signal.SIGTERM, None)
+                        else:
+                            # default action: the process is terminated on the spot
+                            state["killed_levels"] = {str(k): v for k, v in levels_of(buf.getvalue()).items()}
+
+                w.on_step = on_step
         w.run_until(until)
         if w.now_us > max_us:
             h = state["handlers"].get(signal.SIGTERM)
@@ -178,7 +214,8 @@ def run(spec):
     alive = [a.sim_name for a in w.actors if a.actor_ref.is_alive()]
     res = {"exit": code, "error": err, "levels": {str(k): v for k, v in level.items()}, "arduino_direction": ard, "alive_after": alive, "dead": w.dead,
            "t_death_us": state["t_death"], "t_signal_us": state["t_signal"], "t_end_us": w.now_us, "deadlock": w.deadlock, "timeout": state.get("timeout", False),
-           "crash_msg": state.get("crash_msg"), "crashed": bool(state.get("crashed")), "snapshots": snapshots}
+           "crash_msg": state.get("crash_msg"), "crashed": bool(state.get("crashed")), "snapshots": snapshots,
+           "killed_levels": state.get("killed_levels"), "second_signal_delivered": bool(state.get("second_done"))}
     w.close()
     return res
 
